@@ -277,6 +277,42 @@ func (r *bare) DelBlock() error {
 	return barrier(r.cli)
 }
 
+// ReorgInverted: the blockchain has replaced its tip by a sibling holding the given transactions;
+// the pool gets EventAddBlock(sibling) first and EventDelBlock(old tip) afterwards (the order a
+// pool that is behind with its high-priority requests sees, see race.go).
+func (r *bare) ReorgInverted(members [][]*types.Transaction, blockTime int64) error {
+	r.mu.Lock()
+	if len(r.blocks) == 0 {
+		r.mu.Unlock()
+		return fmt.Errorf("ReorgInv on an empty chain")
+	}
+	old := r.blocks[len(r.blocks)-1]
+	parent := r.hdrs[len(r.hdrs)-2]
+	blk := &types.Block{Version: 1, Height: old.Height, BlockTime: blockTime, ParentHash: []byte(fmt.Sprintf("block-%d", parent.Height)),
+		Txs: flatten(members), StateHash: []byte(fmt.Sprintf("state-%d-%d", old.Height, blockTime))}
+	for _, tx := range old.Txs {
+		r.onchain[string(tx.Hash())]--
+	}
+	for _, tx := range blk.Txs {
+		r.onchain[string(tx.Hash())]++
+	}
+	r.blocks[len(r.blocks)-1] = blk
+	r.hdrs[len(r.hdrs)-1] = &types.Header{Height: blk.Height, BlockTime: blk.BlockTime, StateHash: blk.StateHash}
+	r.mu.Unlock()
+	msg := r.cli.NewMessage("mempool", types.EventAddBlock, &types.BlockDetail{Block: blk})
+	if err := r.cli.Send(msg, true); err != nil {
+		return err
+	}
+	if err := barrierHigh(r.cli); err != nil {
+		return err
+	}
+	msg = r.cli.NewMessage("mempool", types.EventDelBlock, &types.BlockDetail{Block: old})
+	if err := r.cli.Send(msg, false); err != nil {
+		return err
+	}
+	return barrier(r.cli)
+}
+
 func (r *bare) Remove(hashes [][]byte) error {
 	return r.api.RemoveTxsByHashList(&types.TxHashList{Hashes: hashes})
 }
